@@ -495,6 +495,40 @@ fn atomic_write_k(case: &Value, inputs: &Value) -> Value {
     json!({"result": if r.is_ok() { "Ok" } else { "Err" }})
 }
 
+// read_new_file on a real scratch tree: directories d0..dk-1, the file present where exists[i]
+fn read_new_file_k(case: &Value, inputs: &Value) -> Value {
+    use chialisp::compiler::compiler::DefaultCompilerOpts;
+    use chialisp::compiler::comptypes::CompilerOpts;
+    use chialisp::compiler::dialect::AcceptedDialect;
+    let k = case["dirs"].as_u64().unwrap() as usize;
+    let file = case["file"].as_str().unwrap();
+    let root = std::env::temp_dir().join(format!("verif_c18_{}", std::process::id()));
+    let _ = std::fs::remove_dir_all(&root);
+    let mut dirs = Vec::new();
+    for i in 0..k {
+        let d = root.join(format!("d{}", i));
+        std::fs::create_dir_all(&d).unwrap();
+        if inputs["exists"][i].as_bool().unwrap_or(false) {
+            std::fs::write(d.join(file), format!("content-of-d{}/{}", i, file)).unwrap();
+        }
+        dirs.push(d.to_str().unwrap().to_string());
+    }
+    let strict = inputs["strict"].as_bool().unwrap_or(false);
+    let opts = Rc::new(DefaultCompilerOpts::new("from.clsp")).set_search_paths(&dirs)
+        .set_dialect(AcceptedDialect { stepping: None, strict, int_fix: false });
+    let r = opts.read_new_file("from.clsp".to_string(), file.to_string());
+    let out = match r {
+        Ok((name, content)) => {
+            let rel = name.strip_prefix(&format!("{}/", root.to_str().unwrap())).unwrap_or(&name).to_string();
+            let content_ok = if file.starts_with('*') { !String::from_utf8_lossy(&content).starts_with("content-of-") } else { String::from_utf8_lossy(&content) == format!("content-of-{}", rel) };
+            json!({"rel": {"name": rel}, "content_ok": content_ok})
+        }
+        Err(_) => json!({"rel": {"err": true}}),
+    };
+    let _ = std::fs::remove_dir_all(&root);
+    out
+}
+
 // assemble(text) -> tree (used to evaluate constant patterns natively)
 fn assemble_k(_case: &Value, inputs: &Value) -> Value {
     let mut a = Allocator::new();
@@ -509,6 +543,7 @@ pub fn dispatch(kernel: &str, case: &Value, inputs: &Value) -> Value {
         "assemble" => assemble_k(case, inputs),
         "int_from_bytes" => int_from_bytes_k(case, inputs),
         "decode" => decode_k(case, inputs),
+        "read_new_file" => read_new_file_k(case, inputs),
         "atomic_write" => atomic_write_k(case, inputs),
         "intmode" => intmode_k(case, inputs),
         "classic_text" => classic_text_k(case, inputs),
